@@ -218,11 +218,12 @@ Definition row_ok (l : list blkT) (sy : N) (r : rowT) : Prop :=
   prev r = root_of (leaves_upto l (from r - 1)) /\ new r = root_of (leaves_upto l (to r)) /\
   r_exits r = bridges_in l (from r) (to r) /\ r_imported r = claims_in l (from r) (to r).
 
-(* the local table: heights without holes from 0, everything below the top row Settled, every row continues the
-   previous one in block range and exit root, the first one starts right after StartL2Block from the start LER *)
+(* the local table: heights without holes, everything below the top row Settled, every row continues the previous one
+   in block range and exit root. The lowest row either is the first certificate (height 0: starts right after
+   StartL2Block from the start LER) or the base of a table rebuilt after a lost database (rows below it absent). *)
 Inductive chain_ok (l : list blkT) (sy : N) : list rowT -> Prop :=
 | ok_nil : chain_ok l sy []
-| ok_first r : height r = 0 -> from r = start_block + 1 -> prev r = start_ler -> row_ok l sy r -> chain_ok l sy [r]
+| ok_first r : (height r = 0 -> from r = start_block + 1 /\ prev r = start_ler) -> row_ok l sy r -> chain_ok l sy [r]
 | ok_next r r' t : chain_ok l sy (r' :: t) -> st r' = Settled -> height r = height r' + 1 ->
     from r = to r' + 1 -> prev r = new r' -> row_ok l sy r -> chain_ok l sy (r :: r' :: t).
 
@@ -388,15 +389,27 @@ Qed.
    at start-up from an Agglayer header may not), the answer is that previous LER: the fallback (start LER at height 0,
    else the new LER of the settled row below) gives the same value on a gap-free chain *)
 Lemma inerror_prev_ler l sy (top : rowT) rest : chain_ok l sy (top :: rest) -> st top = InError ->
+  r_hasprev top = true \/ height top = 0 \/ rest <> [] ->
   next_height_ler (top :: rest) (Some top) = Some (height top, prev top).
 Proof.
-  intros Hc Est. unfold AggsenderProtocol.next_height_ler. rewrite Est. cbn [is_closed is_open negb is_settled is_in_error].
-  destruct (r_hasprev top); [reflexivity|]. inversion Hc as [|r Hh Hf Hp Hr|r r' t Hc' Hst Hh Hf Hp Hr]; subst.
-  - rewrite Hh, Hp. reflexivity.
+  intros Hc Est Hcase. unfold AggsenderProtocol.next_height_ler. rewrite Est. cbn [is_closed is_open negb is_settled is_in_error].
+  destruct (r_hasprev top) eqn:Ehp; [reflexivity|]. inversion Hc as [|r Hbase Hr|r r' t Hc' Hst Hh Hf Hp Hr]; subst.
+  - destruct Hcase as [H|[H|H]]; [discriminate| |congruence]. destruct (Hbase H) as [_ Hp]. rewrite H, Hp. reflexivity.
   - replace (height top =? 0) with false by (symmetry; apply N.eqb_neq; lia). cbn [find].
     replace (height top =? height top - 1) with false by (symmetry; apply N.eqb_neq; lia).
     replace (height r' =? height top - 1) with true by (symmetry; apply N.eqb_eq; lia).
     rewrite Hst, Hp. reflexivity.
+Qed.
+(* in every case the answer is that previous LER or a refusal (base of a rebuilt table, in error, previous LER unknown) *)
+Lemma inerror_prev_ler_or_none l sy (top : rowT) rest : chain_ok l sy (top :: rest) -> st top = InError ->
+  next_height_ler (top :: rest) (Some top) = Some (height top, prev top) \/ next_height_ler (top :: rest) (Some top) = None.
+Proof.
+  intros Hc Est. destruct (r_hasprev top) eqn:Ehp; [left; apply (inerror_prev_ler l sy); auto|].
+  destruct rest as [|r' t]; [|left; apply (inerror_prev_ler l sy); auto; right; right; discriminate].
+  destruct (N.eq_dec (height top) 0) as [E|E]; [left; apply (inerror_prev_ler l sy); auto|].
+  right. unfold AggsenderProtocol.next_height_ler. rewrite Est, Ehp. cbn [is_closed is_open negb is_settled is_in_error find].
+  replace (height top =? 0) with false by (symmetry; apply N.eqb_neq; exact E).
+  replace (height top =? height top - 1) with false by (symmetry; apply N.eqb_neq; lia). reflexivity.
 Qed.
 
 (* what C02 demands of a submission, relative to the local records at the time it is built *)
@@ -433,14 +446,14 @@ Proof.
     2:{ replace (start_block + 1 - 1) with start_block by lia. exact Hler. }
     inversion Hb; subst sb rc'; clear Hb. cbn [sub_ok s_height s_prev s_from s_id s_to s_exits s_imported s_new s_meta].
     repeat split; try reflexivity.
-    + cbn [replace_top]. apply ok_first; cbn [sub_row height from prev s_height s_from s_prev]; try reflexivity.
+    + cbn [replace_top]. apply ok_first; cbn [sub_row height from prev s_height s_from s_prev]; [intros _; split; reflexivity|].
       unfold row_ok, sub_row; cbn [from to prev new r_exits r_imported r_hasprev s_height s_prev s_new s_from s_to s_id s_exits s_imported].
       repeat split; try lia; try reflexivity. replace (start_block + 1 - 1) with start_block by lia. exact Hler.
     + replace (start_block + 1 - 1) with start_block by lia. exact Hler.
   - pose proof (chain_ok_head_row _ _ _ _ Hc) as (Hr1 & Hr2 & Hr3 & Hr4 & Hr5 & Hr6 & Hr7).
-    pose proof (inerror_prev_ler _ _ _ _ Hc) as Hfb.
+    pose proof (inerror_prev_ler_or_none _ _ _ _ Hc) as Hfb.
     cbn [range_start] in Hst. destruct Hst as [Herr Hnerr].
-    destruct (st top) eqn:Est; [| | |rewrite (Hfb eq_refl) in Hb|];
+    destruct (st top) eqn:Est; [| | |destruct (Hfb eq_refl) as [Hfb'|Hfb']; rewrite Hfb' in Hb; [|destruct ((0 <? rc) && negb (f =? from top)); discriminate]|];
       cbn [AggsenderProtocol.next_height_ler] in Hb; rewrite ?Est in Hb; cbn [is_closed is_open negb is_settled is_in_error] in Hb;
       try (destruct ((0 <? rc) && negb (f =? from top)); discriminate).
     + (* replacement of the certificate in error *)
@@ -767,17 +780,22 @@ Definition top_to (rs : list rowT) : N := match rs with [] => start_block | r ::
 Lemma concat_map_snoc {A B} (f : A -> list B) l x : concat (map f (l ++ [x])) = concat (map f l) ++ f x.
 Proof. rewrite map_app, concat_app. cbn. rewrite app_nil_r. reflexivity. Qed.
 
+(* first block the table accounts for: the lowest row's (StartL2Block+1 for the empty table) *)
+Definition base_from (rs : list rowT) : N := match last_opt rs with Some r => from r | None => start_block + 1 end.
+
 Lemma chain_concat l sy rs : sorted l -> chain_ok l sy rs ->
-  concat (map r_exits (rev rs)) = bridges_in l (start_block + 1) (top_to rs) /\
-  concat (map r_imported (rev rs)) = claims_in l (start_block + 1) (top_to rs).
+  concat (map r_exits (rev rs)) = bridges_in l (base_from rs) (top_to rs) /\
+  concat (map r_imported (rev rs)) = claims_in l (base_from rs) (top_to rs) /\
+  base_from rs <= top_to rs + 1.
 Proof.
-  intros Hs. induction 1 as [|r Hh Hf Hp (H1 & H2 & H3 & H4 & H5 & H6 & H7)|r r' t Hc IH Hst Hh Hf Hp (H1 & H2 & H3 & H4 & H5 & H6 & H7)].
-  - cbn [rev map concat top_to]. rewrite bridges_empty_range, claims_empty_range by lia. split; reflexivity.
-  - cbn [rev map concat top_to app]. rewrite !app_nil_r, H6, H7, Hf. split; reflexivity.
-  - destruct IH as [IH1 IH2]. pose proof (chain_ok_head_row _ _ _ _ Hc) as (G1 & G2 & _).
-    change (rev (r :: r' :: t)) with (rev (r' :: t) ++ [r]). rewrite !concat_map_snoc, IH1, IH2, H6, H7. cbn [top_to].
-    rewrite (bridges_split bev cev l (start_block + 1) (to r') (to r) Hs) by lia.
-    rewrite (claims_split bev cev l (start_block + 1) (to r') (to r) Hs) by lia. rewrite Hf. split; reflexivity.
+  intros Hs. induction 1 as [|r Hbase (H1 & H2 & H3 & H4 & H5 & H6 & H7)|r r' t Hc IH Hst Hh Hf Hp (H1 & H2 & H3 & H4 & H5 & H6 & H7)].
+  - unfold base_from. cbn [rev map concat top_to last_opt]. rewrite bridges_empty_range, claims_empty_range by lia. repeat split; lia.
+  - unfold base_from. cbn [rev map concat top_to app last_opt]. rewrite !app_nil_r, H6, H7. repeat split; lia.
+  - destruct IH as (IH1 & IH2 & IH3).
+    assert (Eb : base_from (r :: r' :: t) = base_from (r' :: t)) by reflexivity. rewrite Eb. cbn [top_to] in *.
+    change (rev (r :: r' :: t)) with (rev (r' :: t) ++ [r]). rewrite !concat_map_snoc, IH1, IH2, H6, H7.
+    rewrite (bridges_split bev cev l (base_from (r' :: t)) (to r') (to r) Hs) by lia.
+    rewrite (claims_split bev cev l (base_from (r' :: t)) (to r') (to r) Hs) by lia. rewrite Hf. repeat split; lia.
 Qed.
 
 Lemma filter_all_true {A} (p : A -> bool) l : (forall x, In x l -> p x = true) -> filter p l = l.
@@ -789,18 +807,82 @@ Qed.
 (* block up to which certificates are settled (locally recorded) *)
 Definition settled_to (rs : list rowT) : N := top_to (filter (fun r => is_settled (st r)) rs).
 
-Theorem settled_exactly_once s : Inv s ->
-  concat (map r_exits (settled_rows (rows s))) = bridges_in (l2 s) (start_block + 1) (settled_to (rows s)) /\
-  concat (map r_imported (settled_rows (rows s))) = claims_in (l2 s) (start_block + 1) (settled_to (rows s)).
+(* the table reaches down to the first certificate (always, unless the database was lost) *)
+Definition origin (rs : list rowT) : Prop := match last_opt rs with Some r => height r = 0 | None => True end.
+Lemma base_from_origin l sy rs : chain_ok l sy rs -> origin rs -> base_from rs = start_block + 1.
 Proof.
-  intros (Hh & Hcfg & Hc & _). unfold settled_rows, settled_to.
+  unfold origin, base_from. induction 1 as [|r Hbase Hr|r r' t Hc IH Hst Hh Hf Hp Hr]; cbn [last_opt]; intros Ho; [reflexivity| |].
+  - apply Hbase, Ho.
+  - apply IH. exact Ho.
+Qed.
+
+Theorem settled_exactly_once s : Inv s ->
+  concat (map r_exits (settled_rows (rows s))) = bridges_in (l2 s) (base_from (rows s)) (settled_to (rows s)) /\
+  concat (map r_imported (settled_rows (rows s))) = claims_in (l2 s) (base_from (rows s)) (settled_to (rows s)).
+Proof.
+  intros (Hh & Hcfg & Hc & _). unfold settled_rows, settled_to. pose proof (h_sorted s Hh) as Hs.
   destruct (rows s) as [|top rest] eqn:Er.
-  - cbn [filter]. apply (chain_concat (l2 s) (synced s) []); [apply (h_sorted s Hh)|constructor].
+  - cbn [filter]. destruct (chain_concat (l2 s) (synced s) [] Hs (ok_nil _ _)) as (A & B & _). split; assumption.
   - assert (Hrest : filter (fun r => is_settled (st r)) rest = rest).
     { apply filter_all_true. intros x Hx. rewrite (chain_ok_below_settled _ _ _ _ Hc x Hx). reflexivity. }
     cbn [filter]. rewrite Hrest. destruct (is_settled (st top)).
-    + apply (chain_concat (l2 s) (synced s)); [apply (h_sorted s Hh)|exact Hc].
-    + apply (chain_concat (l2 s) (synced s)); [apply (h_sorted s Hh)|]. eapply chain_ok_tail; exact Hc.
+    + destruct (chain_concat (l2 s) (synced s) _ Hs Hc) as (A & B & _). split; assumption.
+    + destruct rest as [|r' t].
+      * pose proof (chain_ok_head_row _ _ _ _ Hc) as (G1 & _). unfold base_from. cbn [rev map concat top_to last_opt].
+        rewrite bridges_empty_range, claims_empty_range by lia. split; reflexivity.
+      * destruct (chain_concat (l2 s) (synced s) _ Hs (chain_ok_tail _ _ _ _ Hc)) as (A & B & _). split; assumption.
+Qed.
+
+(* [origin] is kept by every event (any builder that is builder_ok): only a lost database removes the lower rows *)
+Lemma last_opt_map {A B} (f : A -> B) l : last_opt (map f l) = option_map f (last_opt l).
+Proof. induction l as [|x l IH]; [reflexivity|]. cbn [map last_opt]. destruct l as [|y l]; [reflexivity|]. exact IH. Qed.
+Lemma poll_heights failing a (rs : list rowT) : map height (fst (poll_pending failing a rs)) = map height rs.
+Proof.
+  induction rs as [|r t IH]; [reflexivity|]. cbn [poll_pending]. destruct (poll_pending failing a t) as [t' res]. cbn [fst] in IH.
+  destruct res as [|p e called]; [cbn [fst map]; rewrite IH; reflexivity|].
+  destruct (is_open (st r)); [|cbn [fst map]; rewrite IH; reflexivity].
+  destruct (failing && negb called); [cbn [fst map]; rewrite IH; reflexivity|].
+  destruct (agg_status a (cid r)); cbn [fst map height]; rewrite IH; reflexivity.
+Qed.
+Definition origin_h (hs : list N) : Prop := match last_opt hs with Some h => h = 0 | None => True end.
+Lemma origin_heights rs : origin rs <-> origin_h (map height rs).
+Proof. unfold origin, origin_h. rewrite last_opt_map. destruct (last_opt rs); cbn; tauto. Qed.
+
+Lemma origin_step_gen bld s e : builder_ok bld -> Inv s -> origin (rows s) -> origin (rows (fst (step_gen bld s e))).
+Proof.
+  intros Hb HI Ho. destruct (step_gen bld s e) as [s' subs] eqn:Hs. cbn [fst].
+  assert (Ht : origin (rows (tick_state s))).
+  { apply origin_heights. unfold tick_state. destruct (poll_pending (fail_next s) (agg s) (rows s)) as [rs res] eqn:Hp.
+    cbn [set_rows_fail rows]. replace rs with (fst (poll_pending (fail_next s) (agg s) (rows s))) by (rewrite Hp; reflexivity).
+    rewrite poll_heights. apply origin_heights, Ho. }
+  destruct (step_gen_submissions bld Hb s e s' subs HI Hs) as [He|(sb & rc & _ & Hk & Hr)].
+  - (* nothing submitted: the table is the old one or the refreshed one *)
+    destruct e as [skip bs cs|cut|cut|id x|]; cbn [AggsenderProtocol.step_gen] in Hs.
+    + destruct (valid_dcs (N.of_nat (length (roots s))) bs); [destruct (add_leaves (tr s) (roots s) bs)|]; inversion Hs; subst; exact Ho.
+    + unfold tick_state in Ht. destruct (poll_pending (fail_next s) (agg s) (rows s)) as [rs res].
+      destruct (cp_pending res); [inversion Hs; subst; exact Ht|].
+      unfold send_with in Hs. destruct (bld _ cut) as [[sb rc]|]; [|inversion Hs; subst; exact Ht].
+      destruct (fail_next _); inversion Hs; subst; [exact Ht|discriminate].
+    + unfold tick_state in Ht. destruct (poll_pending (fail_next s) (agg s) (rows s)) as [rs res].
+      destruct (negb (cp_pending res) && cp_newerr res && retry_immediately); [|inversion Hs; subst; exact Ht].
+      unfold send_with in Hs. destruct (bld _ cut) as [[sb rc]|]; [|inversion Hs; subst; exact Ht].
+      destruct (fail_next _); inversion Hs; subst; [exact Ht|discriminate].
+    + destruct (agg_status (agg s) id) as [cur|]; [destruct (valid_move cur x)|]; inversion Hs; subst; exact Ho.
+    + inversion Hs; subst; exact Ho.
+  - rewrite Hr. destruct Hk as (Hso & _). unfold origin in *.
+    destruct (rows (tick_state s)) as [|top rest]; cbn [replace_top sub_ok] in *.
+    + cbn [last_opt sub_row height]. apply Hso.
+    + destruct (height top =? height (sub_row sb rc)) eqn:E.
+      * destruct rest as [|r' t]; cbn [last_opt] in *; [|exact Ht]. apply N.eqb_eq in E. cbn [sub_row height] in *. lia.
+      * cbn [last_opt] in *. exact Ht.
+Qed.
+
+Lemma origin_run s0 evs : Init s0 -> origin (rows (run s0 evs)).
+Proof.
+  intros Hi. assert (H : Inv s0 /\ origin (rows s0)).
+  { split; [apply Inv_init, Hi|]. destruct Hi as (_ & _ & Hr & _). rewrite Hr. exact I. }
+  clear Hi. unfold AggsenderProtocol.run. revert s0 H. induction evs as [|e evs IH]; intros s [HI Ho]; cbn [fold_left]; [exact Ho|].
+  apply IH. split; [apply step_preserves_Inv; exact HI|]. apply (origin_step_gen build s e build_builder_ok HI Ho).
 Qed.
 
 (* C03, abstract tree form: previous LER = root of the tree before the first deposit of the range,
@@ -1086,3 +1168,233 @@ Proof.
   - constructor; cbn; try reflexivity; constructor.
   - split; [cbn; lia|reflexivity].
 Qed.
+
+(* ------------------------------------------------------------------------------------------ *)
+(* Restarts in the theorems (exit roots = numbers, as in Reconcile.v; payloads and tree generic).  *)
+(* The start-up reconciliation is Model/Reconcile.v's [recover]; its behaviour on the store shapes  *)
+(* that occur is taken from Proofs/ReconcileProofs.v (C13), not re-proved.                          *)
+(* ------------------------------------------------------------------------------------------ *)
+Section RestartTheory.
+Variables bev cev : Type.
+Variable b_leaf : bev -> N.
+Variable b_dc : bev -> N.
+Variable tree : Type.
+Variable t_add : tree -> N -> tree * N.
+Variable retry_immediately : bool.
+Variable start_block : N.
+Variable start_ler : N.
+Variable require_events : bool.
+Variable cert_type : N.
+Variable repr : tree -> list N.
+Variable root_of : list N -> N.
+Hypothesis t_add_repr : forall t x, repr (fst (t_add t x)) = repr t ++ [x].
+Hypothesis t_add_root : forall t x, snd (t_add t x) = root_of (repr t ++ [x]).
+
+Notation rstateT := (rstate bev cev tree).
+Notation rowT := (row N bev cev).
+Notation InvN := (Inv N bev cev b_leaf b_dc tree start_block start_ler repr root_of).
+Notation chainN := (chain_ok N bev cev b_leaf start_block start_ler root_of).
+Notation rowokN := (row_ok N bev cev b_leaf start_block root_of).
+(* Agglayer headers carrying prev_local_exit_root *)
+Notation recover_x := (recover_x bev cev tree cert_type true).
+Notation view_of := (view_of cert_type true).
+Notation hdr_of := (hdr_of cert_type true).
+
+(* what the restart theorems need beyond Inv: the Agglayer's record of every local certificate has the row's range
+   and exit roots; the newest certificate at the Agglayer is the top row's (no crash in flight); numbers fit the
+   database and the metadata; every row stores its previous LER *)
+Definition info_ok (rs : rstateT) : Prop := forall r, In r (rows (xr_core rs)) ->
+  exists i, find (fun i => xi_id i =? cid r) (xr_info rs) = Some i /\
+            xi_from i = from r /\ xi_to i = to r /\ xi_prev i = prev r /\ xi_new i = new r.
+Definition head_ok (rs : rstateT) : Prop :=
+  match agg (xr_core rs), rows (xr_core rs) with
+  | c :: _, r :: _ => a_id c = cid r
+  | [], [] => True
+  | _, _ => False
+  end.
+Definition bounded (rs : rstateT) : Prop :=
+  synced (xr_core rs) < 2^63 /\ cert_type < 256 /\
+  forall r, In r (rows (xr_core rs)) -> height r < 2^63 /\ to r - from r < 2^32 /\ r_hasprev r = true.
+Definition RInv (rs : rstateT) : Prop := InvN (xr_core rs) /\ info_ok rs /\ head_ok rs /\ bounded rs.
+
+Lemma chain_base0 l sy (top : rowT) t : chainN l sy (top :: t) -> height top = 0 -> from top = start_block + 1 /\ prev top = start_ler.
+Proof. inversion 1 as [|r Hb Hr|r r' t' Hc Hst Hh Hf Hp Hr]; subst; intros H0; [apply Hb, H0|lia]. Qed.
+
+Lemma latest_view info c rest : latest (view_of info (c :: rest)) = Some (hdr_of info c).
+Proof.
+  unfold latest, latest_of, AggsenderProtocol.view_of. cbn [a_settled a_pending find].
+  destruct (is_settled (a_st c)); reflexivity.
+Qed.
+
+(* the Agglayer's header of the top row's certificate decodes to the row's fields *)
+Lemma header_of_top rs top t c rest : RInv rs -> rows (xr_core rs) = top :: t -> agg (xr_core rs) = c :: rest ->
+  exists r', row_of_header (hdr_of (xr_info rs) c) = Ok r' /\ sql_u64_ok r' = true /\
+    r_height r' = height top /\ r_id r' = cid top /\ r_status r' = a_st c /\ r_prev_ler r' = Some (prev top) /\
+    r_new_ler r' = new top /\ r_from r' = from top /\ r_to r' = to top.
+Proof.
+  intros ((Hh & Hcfg & Hc & Ha) & Hi & Hhd & (Hsy & Hct & Hb)) Er Ea.
+  unfold head_ok in Hhd. rewrite Er, Ea in Hhd. rewrite Er in Hc.
+  destruct (Hi top) as (i & Hf & I1 & I2 & I3 & I4); [rewrite Er; left; reflexivity|].
+  destruct (Hb top) as (B1 & B2 & B3); [rewrite Er; left; reflexivity|].
+  pose proof (chain_ok_head_row _ _ _ _ _ _ _ _ _ _ _ Hc) as (G1 & G2 & G3 & _).
+  destruct (ag_rows _ _ _ _ _ Ha top) as (c' & Hin & Hid & Hhh & _); [rewrite Er; left; reflexivity|].
+  assert (c' = c).
+  { apply (nodup_same_id (agg (xr_core rs))); [apply (ag_nodup _ _ _ _ _ Ha)|exact Hin|rewrite Ea; left; reflexivity|congruence]. }
+  subst c'.
+  set (l := hdr_of (xr_info rs) c).
+  assert (Hm : h_meta l = meta_encode (new_metadata (from top) (to top) 0 cert_type)).
+  { unfold l, AggsenderProtocol.hdr_of. rewrite Hhd, Hf. cbn [h_meta]. rewrite I1, I2. reflexivity. }
+  destruct (row_of_header_range_l l (from top) (to top) 0 cert_type Hm) as (r' & Hr' & F1 & F2 & _); try lia.
+  destruct (row_of_header_fields l r' Hr') as (R1 & R2 & R3 & R4 & R5 & _).
+  exists r'. split; [exact Hr'|].
+  assert (Hl : h_height l = a_height c /\ h_id l = cid top /\ h_status l = a_st c /\ h_prev_ler l = Some (prev top) /\ h_new_ler l = new top).
+  { unfold l, AggsenderProtocol.hdr_of. rewrite Hhd, Hf. cbn. rewrite I3, I4. auto. }
+  destruct Hl as (L1 & L2 & L3 & L4 & L5).
+  split.
+  - unfold sql_u64_ok. rewrite R1, L1, Hhh, F1, F2. apply andb_true_iff; split; [apply andb_true_iff; split|]; apply N.ltb_lt; lia.
+  - rewrite R1, R2, R3, R4, R5, L1, L2, L3, L4, L5, Hhh. auto 10.
+Qed.
+
+(* RESTART WITH THE DATABASE LOST (Agglayer headers carrying prev_local_exit_root): the reconciliation rebuilds the
+   latest certificate's row from the Agglayer's header and the rebuilt one-row table satisfies Inv again (a table
+   whose base is not the first certificate), the node is not refused. Hypothesis [Hview]: the Agglayer's view is
+   well-formed in the sense of C13 (latest pending above latest settled); deriving it from the protocol needs an
+   Agglayer-side height invariant that Inv does not carry (the missing lemma, see Properties/C02.v). *)
+Theorem restart_lost_preserves_Inv rs : RInv rs -> Reconcile.agg_ok (view_of (xr_info rs) (agg (xr_core rs))) ->
+  InvN (xr_core (recover_x true rs)) /\ xr_recovering (recover_x true rs) = false.
+Proof.
+  intros HR Hview. pose proof HR as ((Hh & Hcfg & Hc & Ha) & Hi & Hhd & Hb).
+  unfold AggsenderProtocol.recover_x. cbn match.
+  destruct (agg (xr_core rs)) as [|c rest] eqn:Ea.
+  - (* nothing at the Agglayer: nothing local either *)
+    unfold head_ok in Hhd. rewrite Ea in Hhd. destruct (rows (xr_core rs)) as [|r t] eqn:Er; [|contradiction].
+    rewrite (recover_nothing false _ [] Hview) by reflexivity. cbn [s_info sort_by_height fold_right rev map refused xr_core xr_recovering].
+    split; [|reflexivity]. split; [apply hist_ok_frame; exact Hh|]. split; [exact Hcfg|]. split; [constructor|].
+    destruct Ha as [H1 H2 H3 H4]. constructor; cbn [rows agg next_id]; rewrite ?Ea in *; try assumption; intros ? [].
+  - unfold head_ok in Hhd. rewrite Ea in Hhd. destruct (rows (xr_core rs)) as [|top t] eqn:Er; [contradiction|].
+    destruct (header_of_top rs top t c rest HR Er Ea) as (r' & Hr' & Hsql & R1 & R2 & R3 & R4 & R5 & R6 & R7).
+    rewrite (recover_insert_empty false _ [] (hdr_of (xr_info rs) c) r' Hview (latest_view _ _ _) Hr' Hsql).
+    cbn [s_info sort_by_height fold_right insert_by_height rev app map refused xr_core xr_recovering]. split; [|reflexivity].
+    set (nr := of_rrow bev cev (l2 (xr_core rs)) (norm_row r')).
+    pose proof (chain_ok_head_row _ _ _ _ _ _ _ _ _ _ _ Hc) as (G1 & G2 & G3 & G4 & G5 & G6 & G7).
+    assert (N1 : height nr = height top /\ cid nr = cid top /\ st nr = a_st c /\ from nr = from top /\ to nr = to top /\
+                 prev nr = prev top /\ new nr = new top /\ r_exits nr = r_exits top /\ r_imported nr = r_imported top).
+    { unfold nr, of_rrow, norm_row. cbn. rewrite R1, R2, R3, R4, R5, R6, R7, G6, G7. auto 10. }
+    destruct N1 as (N1 & N2 & N3 & N4 & N5 & N6 & N7 & N8 & N9).
+    split; [apply hist_ok_frame; exact Hh|]. split; [exact Hcfg|]. split.
+    + cbn [l2 synced rows]. apply ok_first.
+      * rewrite N1, N4, N6. apply (chain_base0 _ _ _ _ Hc).
+      * unfold row_ok. rewrite N4, N5, N6, N7, N8, N9. repeat split; assumption.
+    + destruct Ha as [H1 H2 H3 H4]. constructor; cbn [rows agg next_id]; rewrite ?Ea in *; try assumption.
+      * intros r [<-|[]]. destruct (H1 top) as (c' & Hin & Hid & Hhh & _); [rewrite Er; left; reflexivity|].
+        assert (c' = c) by (apply (nodup_same_id (c :: rest)); [exact H4|exact Hin|left; reflexivity|congruence]). subst c'.
+        exists c. split; [left; reflexivity|]. rewrite N1, N2, N3. repeat split; try assumption.
+      * intros c2 Hin Ho. destruct (H2 c2 Hin Ho) as (top' & Ht & Hid). rewrite Er in Ht. cbn in Ht. inversion Ht; subst top'.
+        exists nr. split; [reflexivity|]. rewrite N2. exact Hid.
+Qed.
+(* ---- restart on the SAME database ---- *)
+Fixpoint desc (l : list Reconcile.row) : Prop :=
+  match l with [] => True | x :: t => Forall (fun y => r_height y < r_height x) t /\ desc t end.
+Lemma insert_last r l : Forall (fun x => r_height x < r_height r) l -> insert_by_height r l = l ++ [r].
+Proof.
+  induction 1 as [|x l Hx _ IH]; [reflexivity|]. cbn [insert_by_height app].
+  replace (r_height r <=? r_height x) with false by (symmetry; apply N.leb_gt; exact Hx). rewrite IH. reflexivity.
+Qed.
+Lemma sort_desc l : desc l -> rev (sort_by_height l) = l.
+Proof.
+  intros H. assert (E : sort_by_height l = rev l); [|rewrite E; apply rev_involutive].
+  induction l as [|x t IH]; [reflexivity|]. destruct H as [Hx Ht]. unfold sort_by_height in *. cbn [fold_right rev].
+  rewrite (IH Ht). apply insert_last. apply Forall_rev. exact Hx.
+Qed.
+Lemma chain_heights l sy (r : rowT) t : chainN l sy (r :: t) -> Forall (fun y => height y < height r) t.
+Proof.
+  revert r. induction t as [|r' t IH]; intros r Hc; [constructor|].
+  inversion Hc as [| |? ? ? Hc' Hst Hh Hf Hp Hr]; subst. constructor; [lia|].
+  eapply Forall_impl; [|exact (IH r' Hc')]. intros y Hy. cbn beta in *. lia.
+Qed.
+Lemma chain_desc l sy (rs : list rowT) : chainN l sy rs -> desc (map (to_rrow bev cev cert_type) rs).
+Proof.
+  induction rs as [|r t IH]; intros Hc; [exact I|]. cbn [map desc]. split.
+  - pose proof (chain_heights _ _ _ _ Hc) as H. apply Forall_map. eapply Forall_impl; [|exact H]. intros y Hy. exact Hy.
+  - apply IH. eapply chain_ok_tail. exact Hc.
+Qed.
+Lemma of_to_rrow l (r : rowT) : r_hasprev r = true -> r_exits r = bridges_in l (from r) (to r) ->
+  r_imported r = claims_in l (from r) (to r) -> of_rrow bev cev l (to_rrow bev cev cert_type r) = r.
+Proof. destruct r; cbn. intros -> -> ->. reflexivity. Qed.
+
+(* RESTART ON THE SAME DATABASE (no crash in flight, headers carrying prev_local_exit_root): the reconciliation only
+   refreshes the top row's status from the Agglayer; the table satisfies Inv again and the node is not refused.
+   Same hypothesis [Hview] as for the lost database. *)
+Theorem restart_kept_preserves_Inv rs : RInv rs -> Reconcile.agg_ok (view_of (xr_info rs) (agg (xr_core rs))) ->
+  InvN (xr_core (recover_x false rs)) /\ xr_recovering (recover_x false rs) = false.
+Proof.
+  intros HR Hview. pose proof HR as ((Hh & Hcfg & Hc & Ha) & Hi & Hhd & (Hsy & Hct & Hb)).
+  unfold AggsenderProtocol.recover_x. cbn match.
+  destruct (agg (xr_core rs)) as [|c rest] eqn:Ea.
+  - unfold head_ok in Hhd. rewrite Ea in Hhd. destruct (rows (xr_core rs)) as [|r t] eqn:Er; [|contradiction].
+    cbn [map]. rewrite (recover_nothing false _ [] Hview) by reflexivity.
+    cbn [s_info sort_by_height fold_right rev map refused xr_core xr_recovering].
+    split; [|reflexivity]. split; [apply hist_ok_frame; exact Hh|]. split; [exact Hcfg|]. split; [constructor|].
+    destruct Ha as [H1 H2 H3 H4]. constructor; cbn [rows agg next_id]; rewrite ?Ea in *; try assumption; intros ? [].
+  - unfold head_ok in Hhd. rewrite Ea in Hhd. destruct (rows (xr_core rs)) as [|top t] eqn:Er; [contradiction|].
+    destruct (header_of_top rs top t c rest HR Er Ea) as (r' & Hr' & Hsql & R1 & R2 & R3 & R4 & R5 & R6 & R7).
+    set (a := view_of (xr_info rs) (c :: rest)) in *. set (l := hdr_of (xr_info rs) c) in *.
+    set (c0 := to_rrow bev cev cert_type top). set (rest0 := map (to_rrow bev cev cert_type) t).
+    destruct Ha as [H1 H2 H3 H4]. rewrite Ea in *. rewrite Er in H1, H2.
+    destruct (H1 top (or_introl eq_refl)) as (ct & Hin & Hid & Hhh & Hlag).
+    assert (ct = c) by (apply (nodup_same_id (c :: rest)); [exact H4|exact Hin|left; reflexivity|congruence]). subst ct.
+    destruct (Hb top (or_introl eq_refl)) as (B1 & B2 & B3).
+    pose proof (chain_ok_head_row _ _ _ _ _ _ _ _ _ _ _ Hc) as (G1 & G2 & G3 & G4 & G5 & G6 & G7).
+    assert (Hbelow : Forall (below c0) rest0).
+    { unfold rest0. apply Forall_map. apply Forall_forall. intros y Hy. unfold below, c0. cbn [to_rrow r_status r_height r_id].
+      split; [exact (chain_ok_below_settled _ _ _ _ _ _ _ _ _ _ _ Hc y Hy)|]. split.
+      - pose proof (chain_heights _ _ _ _ Hc) as Hl. rewrite Forall_forall in Hl. exact (Hl y Hy).
+      - intros E. destruct (H1 y (or_intror Hy)) as (cy & Hiny & Hidy & Hhy & _).
+        assert (cy = c) by (apply (nodup_same_id (c :: rest)); [exact H4|exact Hiny|left; reflexivity|congruence]). subst cy.
+        pose proof (chain_heights _ _ _ _ Hc) as Hl. rewrite Forall_forall in Hl. specialize (Hl y Hy). cbn beta in Hl. lia. }
+    assert (Hlook : Reconcile.lookup a (r_id c0) = Some l).
+    { unfold Reconcile.lookup, a, AggsenderProtocol.view_of, c0. cbn [a_known map find to_rrow r_id].
+      fold l. replace (h_id l =? cid top) with true; [reflexivity|]. symmetry. apply N.eqb_eq.
+      unfold l, AggsenderProtocol.hdr_of. cbn [h_id]. exact Hhd. }
+    assert (Hl : h_height l = a_height c /\ h_id l = a_id c /\ h_status l = a_st c) by (unfold l, AggsenderProtocol.hdr_of; cbn; auto).
+    destruct Hl as (L1 & L2 & L3).
+    destruct (row_of_header_fields l r' Hr') as (F1 & F2 & F3 & F4 & F5 & _).
+    assert (Hm : matches a c0 l).
+    { unfold matches, c0. cbn [to_rrow r_height r_id r_new_ler r_prev_ler r_from r_to r_status]. rewrite B3.
+      split; [congruence|]. split; [congruence|]. split; [congruence|]. split; [exists (prev top); split; [reflexivity|congruence]|].
+      split; [exists r'; auto|]. split; [intros Hcl; rewrite L3; apply Hlag; unfold is_closed in Hcl; destruct (is_open (st top)); [discriminate|reflexivity]|].
+      split; [exact Hlook|]. unfold sql_u64_ok. cbn [to_rrow r_height r_from r_to].
+      apply andb_true_iff; split; [apply andb_true_iff; split|]; apply N.ltb_lt; lia. }
+    cbn [map]. fold c0 rest0.
+    rewrite (recover_consistent false a c0 rest0 [] l Hview Hbelow (latest_view _ _ _) Hm), (check_pending_shape a c0 rest0 [] Hbelow).
+    cbn [s_info refused xr_core xr_recovering]. split; [|reflexivity].
+    (* the refreshed top row *)
+    assert (Hsync : exists x, sync_row a c0 = to_rrow bev cev cert_type (set_st N bev cev top x) /\ (x = st top \/ x = a_st c)).
+    { unfold sync_row. cbn [r_status c0 to_rrow]. fold c0. destruct (is_open (st top)); [|exists (st top); split; [destruct top; reflexivity|left; reflexivity]].
+      rewrite Hlook. cbn [to_rrow r_status]. destruct (status_eqb (st top) (h_status l)); [exists (st top); split; [destruct top; reflexivity|left; reflexivity]|].
+      exists (a_st c). split; [rewrite L3; destruct top; reflexivity|right; reflexivity]. }
+    destruct Hsync as (x & Esync & Hx). rewrite Esync.
+    assert (Hd : desc (to_rrow bev cev cert_type (set_st N bev cev top x) :: rest0)).
+    { pose proof (chain_desc _ _ _ (chain_ok_head_st N bev cev b_leaf start_block start_ler root_of _ _ top t x Hc)) as D. exact D. }
+    rewrite (sort_desc _ Hd). cbn [map].
+    rewrite (of_to_rrow _ (set_st N bev cev top x)) by (cbn; assumption).
+    assert (Et : map (of_rrow bev cev (l2 (xr_core rs))) rest0 = t).
+    { unfold rest0. rewrite map_map. rewrite <- (map_id t) at 2. apply map_ext_in. intros y Hy.
+      destruct (Hb y (or_intror Hy)) as (_ & _ & Y3).
+      assert (Hy' : rowokN (l2 (xr_core rs)) (synced (xr_core rs)) y).
+      { clear - Hc Hy. revert top Hc. induction t as [|r2 t2 IH]; intros top Hc; [destruct Hy|].
+        destruct Hy as [<-|Hy]; [exact (chain_ok_head_row _ _ _ _ _ _ _ _ _ _ _ (chain_ok_tail _ _ _ _ _ _ _ _ _ _ _ Hc))|].
+        apply (IH Hy r2). exact (chain_ok_tail _ _ _ _ _ _ _ _ _ _ _ Hc). }
+      destruct Hy' as (_ & _ & _ & _ & _ & Y6 & Y7). apply of_to_rrow; assumption. }
+    rewrite Et.
+    split; [apply hist_ok_frame; exact Hh|]. split; [exact Hcfg|].
+    split; [cbn [l2 synced rows]; apply chain_ok_head_st; exact Hc|].
+    constructor; cbn [rows agg next_id]; try assumption.
+    + intros r [<-|Hr].
+      * exists c. split; [left; reflexivity|]. cbn [set_st cid height st]. repeat split; try assumption.
+        destruct Hx as [->| ->]; [exact Hlag|intros _; reflexivity].
+      * apply H1. right. exact Hr.
+    + intros c2 Hin2 Ho. destruct (H2 c2 Hin2 Ho) as (top' & Ht & Hid2). cbn in Ht. inversion Ht; subst top'.
+      exists (set_st N bev cev top x). split; [reflexivity|exact Hid2].
+Qed.
+End RestartTheory.
